@@ -1,7 +1,7 @@
 """C03 — GMM ML training never decreases the likelihood and stops by its stated rule."""
 import numpy as np
 
-from vf import gen, ref, sut
+from vf import gen, guard, ref, sut
 from vf.runner import Registry
 
 EPS = np.finfo(float).eps
@@ -185,7 +185,8 @@ def c_stop(ctx, case):
     if any(active[1:kstar + 2]):
         ctx.discard("floor active (trajectory ill-conditioned)")
     g = machine(init, upd, thr, cap)
-    fit(g, case)
+    with guard.budget(kstar + 2):  # the rule stops at k*: a fit that is still iterating after k*+2 is reported, not waited for
+        fit(g, case)
     got = sut.params_of(g)
 
     def dist(a, b):
